@@ -92,6 +92,71 @@ def guarded(fn, timeout=3.0):
         signal.setitimer(signal.ITIMER_REAL, 0)
 
 
+def bytes_and_bytearray(run, data, val):
+    """run(data) once with the input as bytes and once as bytearray (the library hands bytearray slices to its own decoders
+    in several places, callers hand over bytes): the canonical outcome - or, when the two differ, a marker value that
+    no model answer equals, so that the correspondence reports the input"""
+    a = val(guarded(lambda: run(bytes(data))))
+    b = val(guarded(lambda: run(bytearray(data))))
+    if v_text(canon(a)) == v_text(canon(b)):
+        return a
+    return [b"result depends on bytes vs bytearray input", a, b]
+
+
+def _to_bytearray(a):
+    if isinstance(a, bytes):
+        return bytearray(a), True
+    if isinstance(a, list):
+        out, any_ = [], False
+        for x in a:
+            y, ch = _to_bytearray(x)
+            out.append(y)
+            any_ = any_ or ch
+        return out, any_
+    return a, False
+
+
+def with_bytearray_variant(impl, ops):
+    """wrap a property module's impl(op, arg): the decoding operations named in `ops` are run a second time with every
+    bytes value of the argument handed over as a bytearray (what the library's own layers pass down); when the canonical
+    outcomes differ the result is a marker no model answer equals, so the correspondence reports the input"""
+    def wrapped(op, a):
+        r1 = impl(op, a)
+        if op not in ops:
+            return r1
+        a2, changed = _to_bytearray(a)
+        if not changed:
+            return r1
+        r2 = impl(op, a2)
+        if v_text(canon(r1)) == v_text(canon(r2)):
+            return r1
+        return [b"result depends on bytes vs bytearray input", r1, r2]
+    return wrapped
+
+
+def encode_after_field_change(make, v1, v2, encode=lambda o: o.to_bytes(), touch=None):
+    """an object built for v1 and used once (encoded), whose attributes are then all assigned the values of an object built for
+    v2, must encode like a freshly built v2 (nothing computed for the earlier field values may survive the assignment).
+    -> (outcome on the re-used object, outcome on the fresh object) as canonical values, or None when the class is frozen"""
+    import attr
+    o1, o2 = guarded(lambda: make(v1)), guarded(lambda: make(v2))
+    if not (o1.ok and o2.ok) or type(o1.value) is not type(o2.value) or not attr.has(type(o1.value)):
+        return None
+    a, b = o1.value, o2.value
+    guarded(lambda: encode(a))
+    if touch:
+        guarded(lambda: touch(a))
+    try:
+        for f in attr.fields(type(b)):
+            if f.init is False and f.name.startswith("_"):
+                continue
+            setattr(a, f.name, getattr(b, f.name))
+    except (attr.exceptions.FrozenInstanceError, AttributeError):
+        return None
+    val = lambda o: canon(o.value) if o.ok else E(err_code(o))
+    return val(guarded(lambda: encode(a))), val(guarded(lambda: encode(b)))
+
+
 def err_code(o, proto=(), named=None):
     """coarse error class of a non-ok outcome"""
     if o.kind == "hang":
